@@ -227,7 +227,9 @@ def _case(ctx, case, model_out=None):
     lines = [_struct_line(psi, ROOT_ID), _order_line(rho)] + _graph_lines(psi, ttno, names)
     mo = model_out if model_out is not None else ctx.lean.batch(lines)
     ctx.corr_cases += 1
-    if mo[0] != impl_struct:
+    # the insertion order of the node dictionary is not part of the stated structure (identifiers, parents, ordered
+    # children): the node records are compared as sorted lists
+    if sorted(mo[0].split(" ")) != sorted(impl_struct.split(" ")):
         ctx.corr_fail(case, f"{tag} structure: impl=[{impl_struct}] model=[{mo[0]}]")
     if mo[1] != (impl_order or "-"):
         ctx.corr_fail(case, f"{tag} contraction order filter: impl=[{impl_order}] model=[{mo[1]}]")
